@@ -11,5 +11,11 @@ theorem base_marker_gen_eq : baseMarkerGen = bar7 := by decide
 /-- the byte appended by `start_marker += b"!"` is the one `extendMarker` appends -/
 theorem extension_gen_eq : extensionGen = [33] := by decide
 theorem names_gen_eq : nameAGen = nameA ∧ nameBGen = nameB ∧ nameBaseGen = nameBase := by decide
+/-- `_dump_conflicts` + `_conflict_file` name the helpers `<name>.OTHER`, `<name>.THIS`, `<name>.BASE` … -/
+theorem helper_suffixes_gen_eq : helperSuffixesGen = [sfxOther, sfxThis, sfxBase] := by decide
+/-- … and these are exactly the suffixes `TextConflict.associated_filenames` / `cleanup` (bzr) … -/
+theorem cleanup_suffixes_gen_eq : cleanupSuffixesGen = [sfxThis, sfxBase, sfxOther] := by decide
+/-- … and the git working tree's conflict detection look for -/
+theorem cleanup_suffixes_git_gen_eq : cleanupSuffixesGitGen = [sfxBase, sfxOther, sfxThis] := by decide
 
 end BreezyVerif.C19
